@@ -121,6 +121,22 @@ def bad_close(drv, tier):
     return out if tier == "thorough" else out[::2]
 
 
+def power_requests(tier):
+    """Tridonic: a caller switching the interface's bus power supply while a sequence and a device-type command of other
+    callers are under way -- the request is a unit of its own (it takes the transaction lock like a send)"""
+    out = []
+    starts = [{"time": 0.0}] + [{"writes": w} for w in range(1, 7)] + [{"reports": w} for w in range(1, 9)]
+    for st in starts:
+        for plan in ([1] * 30, [-1], [0, 1, 0, 1, 1, 0, 1, 1, 1, 1, 1, 1, 1, 1, 1, 1, 1, 1]):
+            out.append({"driver": "tridonic", "release_plan": list(plan), "outcomes": [["val", 11], ["none", 0], ["val", 99]],
+                        "callers": [{"name": "A", "mode": "sequence", "unit": [["dapc", 1], ["qdt6", 2], ["cfg", 3], ["q16", 4]],
+                                     "start": {"time": 0.0}},
+                                    {"name": "P", "mode": "power", "unit": [["power", 0], ["power", 1]], "start": st},
+                                    {"name": "B", "mode": "send", "unit": [["qdt6", 9], ["q16", 10]], "start": {"writes": 2}}],
+                        "tag": "power"})
+    return out if tier == "thorough" else out[::2]
+
+
 def scenarios(tier, seed, drivers_=("tridonic", "hasseb", "luba", "sci")):
     rng = random.Random(seed)
     scs = []
@@ -134,6 +150,8 @@ def scenarios(tier, seed, drivers_=("tridonic", "hasseb", "luba", "sci")):
         scs += sysm
         scs += cancel_queued(drv, tier)
         scs += bad_close(drv, tier)
+        if drv == "tridonic":
+            scs += power_requests(tier)
     return scs
 
 
